@@ -400,6 +400,8 @@ def facts_from_test(e, truth):
                     if isinstance(op, ast.NotEq) and not truth:
                         out.add(('Eq', pa, b.value))
                         out.add(('NotNone', pa))
+                    if (isinstance(op, ast.NotEq) and truth) or (isinstance(op, ast.Eq) and not truth):
+                        out.add(('Ne', pa, b.value))
                     if isinstance(op, ast.NotEq) and truth and b.value == '':
                         pass
         pl = path_of(l)
@@ -617,3 +619,119 @@ def mod_summaries(classes):
                     direct[m] |= add
                     changed = True
     return direct
+
+
+# ---------------------------------------------------------------------------
+# reaching definitions of plain local names
+# ---------------------------------------------------------------------------
+
+def _name_defs(node):
+    """[(name, value expr or None)] defined at this CFG node; value None = not a plain `name = expr`"""
+    out = []
+    a = node.ast
+    if a is None:
+        return out
+    if node.kind == 'for':
+        for x in ast.walk(a):
+            if isinstance(x, ast.Name):
+                out.append((x.id, ('iter', node.stmt.iter if isinstance(node.stmt, ast.For) else None)))
+        return out
+    if node.kind == 'handler':
+        if a.name:
+            out.append((a.name, None))
+        return out
+    if isinstance(a, ast.withitem):
+        if a.optional_vars is not None:
+            for x in ast.walk(a.optional_vars):
+                if isinstance(x, ast.Name):
+                    out.append((x.id, None))
+        return out
+    if node.kind != 'stmt':
+        return out
+    if isinstance(a, ast.Assign):
+        for t in a.targets:
+            if isinstance(t, ast.Name):
+                out.append((t.id, a.value))
+            else:
+                for x in ast.walk(t):
+                    if isinstance(x, ast.Name) and isinstance(x.ctx, ast.Store):
+                        out.append((x.id, None))
+    elif isinstance(a, (ast.AugAssign, ast.AnnAssign)):
+        if isinstance(a.target, ast.Name):
+            out.append((a.target.id, a.value if isinstance(a, ast.AnnAssign) else None))
+    return out
+
+
+def reaching_defs(cfg):
+    """{node id: {name: frozenset of defining node ids}} on ENTRY to each node (parameters: def id -1)"""
+    defs = {n.id: _name_defs(n) for n in cfg.nodes}
+    IN = {n.id: None for n in cfg.nodes}
+    params = {}
+    fa = cfg.fn.args
+    for a in fa.args + fa.kwonlyargs + fa.posonlyargs + ([fa.vararg] if fa.vararg else []) + ([fa.kwarg] if fa.kwarg else []):
+        params[a.arg] = frozenset([-1])
+    IN[cfg.entry.id] = params
+    work = collections.deque([cfg.entry])
+    while work:
+        n = work.popleft()
+        cur = dict(IN[n.id])
+        for name, _v in defs[n.id]:
+            cur[name] = frozenset([n.id])
+        for s, _l in n.succ:
+            old = IN[s.id]
+            if old is None:
+                new = dict(cur)
+            else:
+                new = dict(old)
+                for k, v in cur.items():
+                    new[k] = new.get(k, frozenset()) | v
+            if new != old:
+                IN[s.id] = new
+                work.append(s)
+    return IN, defs
+
+
+def node_of(cfg, expr):
+    """the CFG node at which the expression object `expr` is evaluated"""
+    for nd in cfg.nodes:
+        for x in cfg.walk_exprs(nd):
+            if x is expr:
+                return nd
+    return None
+
+
+def derives_only_from(cfg, expr, at, is_source, unwrap, RD=None, _seen=None):
+    """every value `expr` can have at node `at` is a source (is_source(e, node)) possibly wrapped by allowed operations:
+    `unwrap(e)` returns the inner expression of an allowed wrapper or None.  Local names are followed through all their
+    reaching definitions."""
+    if RD is None:
+        RD = reaching_defs(cfg)
+    IN, defs = RD
+    _seen = _seen if _seen is not None else set()
+    if is_source(expr, at):
+        return True
+    inner = unwrap(expr)
+    if inner is not None:
+        return derives_only_from(cfg, inner, at, is_source, unwrap, RD, _seen)
+    if isinstance(expr, ast.Name):
+        rd = (IN.get(at.id) or {}).get(expr.id)
+        if not rd:
+            return False
+        for d in rd:
+            if (d, expr.id) in _seen:
+                continue
+            _seen.add((d, expr.id))
+            if d == -1:
+                return False
+            vals = [v for nm, v in defs[d] if nm == expr.id]
+            for v in vals:
+                if v is None:
+                    return False
+                if isinstance(v, tuple) and v[0] == 'iter':
+                    if not is_source(('iter', v[1]), cfg.nodes[d]):
+                        return False
+                    continue
+                if not derives_only_from(cfg, v, cfg.nodes[d], is_source, unwrap, RD, _seen):
+                    return False
+        return True
+    return False
